@@ -31,6 +31,14 @@ fn gen_specs(rng: &mut impl Rng, force_acl: bool) -> Vec<gen::EntrySpec> {
                 e.extras.push((*b"faCe", b"linux:d:u:alice:allow:r,w".to_vec()));
                 if rng.gen_bool(0.5) { e.extras.push((*b"faCe", b"linux::g::deny:x".to_vec())); }
                 if rng.gen_bool(0.5) { e.extras.push((*b"myTy", b"keep-me".to_vec())); }
+                // several platforms in one entry (an archive that travelled): the order in which they are written back matters
+                if rng.gen_bool(0.5) {
+                    for (pl, ace) in [("", ":u:bob:allow:r"), ("macos", "macos::u:carol:allow:r,w"), ("windows", "windows::g:staff:deny:w"), ("freebsd", "freebsd::u:dave:allow:x")] {
+                        e.extras.push((*b"faCl", pl.as_bytes().to_vec()));
+                        e.extras.push((*b"faCe", ace.as_bytes().to_vec()));
+                    }
+                    e.extras.push((*b"zzTy", b"after-the-acls".to_vec()));
+                }
             }
             e
         })
@@ -129,7 +137,12 @@ fn frame_eq(a: &LEntry, b: &LEntry, cmd: &str) -> Vec<&'static str> {
     if cmd != "chown" && cmd != "strip" && a.owner != b.owner { d.push("owner"); }
     if cmd != "strip" && (a.c != b.c || a.m != b.m || a.a != b.a) { d.push("timestamps"); }
     if cmd != "xattr" && cmd != "strip" && a.xattrs != b.xattrs { d.push("xattrs"); }
-    if cmd != "strip" && a.extras != b.extras { d.push("private chunks"); }
+    let acl_cmd = cmd == "acl" || cmd == "migrate";
+    if cmd != "strip" && !acl_cmd && a.extras != b.extras { d.push("private chunks"); }
+    if acl_cmd {
+        let other = |e: &LEntry| -> Vec<([u8; 4], Vec<u8>)> { e.extras.iter().filter(|x| &x.0 != b"faCl" && &x.0 != b"faCe").cloned().collect() };
+        if other(a) != other(b) { d.push("private chunks other than the access-control chunks"); }
+    }
     d
 }
 
@@ -170,7 +183,20 @@ pub fn edit(ctx: &mut Ctx) {
         let mut strip_keep: Option<(bool, Vec<[u8; 4]>, bool, bool, bool)> = None; // (keep all private, kept types, timestamps, permission, xattrs)
         let cmd: &str;
         let model_req: String;
-        match if forced { 0 } else if forced_strip { 5 } else if forced_chown { 2 } else { rng.gen_range(0..6) } {
+        match if forced { 0 } else if forced_strip { 5 } else if forced_chown { 2 } else { rng.gen_range(0..8) } {
+            6 => {
+                // `acl set -m`: the entry's access-control chunks are rewritten; nothing else of the entry, and nothing of any other entry
+                cmd = "acl";
+                args.extend(["experimental", "acl", "set", "--unstable", "a.pna", "-m", "u:alice:allow:r"].map(String::from));
+                for p in &pats { args.push(p.to_string()); }
+                model_req = String::new();
+            }
+            7 => {
+                // `migrate`: regroups the access-control chunks of every entry; everything else stays
+                cmd = "migrate";
+                args.extend(["experimental", "migrate", "--unstable", "a.pna", "--output", "a.pna"].map(String::from));
+                model_req = String::new();
+            }
             0 => {
                 cmd = "delete";
                 let excl: Vec<&str> = if rng.gen_bool(0.3) { vec![PATTERNS[rng.gen_range(0..PATTERNS.len())]] } else { vec![] };
@@ -288,7 +314,9 @@ pub fn edit(ctx: &mut Ctx) {
         }
         let after = match read_archive_file(&apath, pw.as_deref()) { Ok(v) => v, Err(e) => { ctx.violation("C10", "archive unreadable after an editing command", json!({"case":attrs,"why":e})); ctx.violation("C14", "editing command wrote an unreadable archive", json!({"case":attrs,"why":e})); continue; } };
         // ---- model correspondence
-        ctx.case(json!({"cmd":cmd,"strategy":strategy,"n":names.len()}), format!("{model_req}{}", items_wire(&before)), format!("ok {}", items_wire(&after)), true);
+        if model_req.is_empty() { ctx.case_free(); } else {
+            ctx.case(json!({"cmd":cmd,"strategy":strategy,"n":names.len()}), format!("{model_req}{}", items_wire(&before)), format!("ok {}", items_wire(&after)), true);
+        }
         // ---- independent well-formedness of what was written (C14)
         if let Err(why) = crate::refdec::strict_archive(&std::fs::read(&apath).unwrap(), vec![], false) {
             ctx.violation("C14", "editing command wrote an archive that is not well-formed", json!({"case":attrs,"why":why}));
@@ -326,7 +354,7 @@ pub fn edit(ctx: &mut Ctx) {
             ctx.violation("C10", "an editing command changed the number of entries", json!({"case":attrs,"before":fb.len(),"after":fa.len()}));
         } else {
             for (b, a) in kept.iter().zip(fa.iter()) {
-                let selected = (cmd == "strip" && !strip_named) || sel.contains(&b.name);
+                let selected = (cmd == "strip" && !strip_named) || cmd == "migrate" || sel.contains(&b.name);
                 let mut diffs = if selected { frame_eq(b, a, cmd) } else { if *b == a { vec![] } else { vec!["unselected entry changed"] } };
                 if selected && cmd == "chown" {
                     // target: the named half is set (when the name resolves), the other half is untouched
